@@ -194,7 +194,7 @@ MUL_PRIMS = {"dot", "matmul", "tensordot", "kron", "outer", "inner", "multiply"}
 SAME_PRIMS = {
     "reshape", "transpose", "moveaxis", "conj", "abs", "sum", "copy", "flip", "mean", "tensor", "to_numpy", "squeeze",
     "ravel", "unfold", "fold", "tensor_to_vec", "vec_to_tensor", "partial_unfold", "partial_fold", "partial_tensor_to_vec",
-    "partial_vec_to_tensor", "matricize", "trace", "diag", "cumsum", "max", "min", "norm", "index_update_value", "real", "clip", "proximal_operator", "tensor_to_vec",
+    "partial_vec_to_tensor", "matricize", "trace", "diag", "cumsum", "max", "min", "norm", "index_update_value", "real", "clip", "sort", "proximal_operator", "tensor_to_vec",
 }
 ADD_PRIMS = {"concatenate", "stack", "where", "maximum", "minimum"}
 DEG0_PRIMS = {"ones", "eye", "sign", "shape", "ndim", "context", "eps", "arange", "argmax", "argmin", "argsort", "len", "range", "int", "float", "ones_like"}
@@ -317,6 +317,12 @@ class Evaluator:
             if isinstance(e.op, (ast.Add, ast.Sub)):
                 if not isinstance(a, (Deg, ListV)) and not isinstance(b, (Deg, ListV)):
                     return Other()
+                # a guard against division by zero (x + 1e-12, x + eps): negligible by intent
+                tiny = lambda o: isinstance(o, Other) and isinstance(o.const, float) and 0 < abs(o.const) <= 1e-6
+                if tiny(a) and isinstance(b, (Deg, ListV)):
+                    return Deg(db)
+                if tiny(b) and isinstance(a, (Deg, ListV)):
+                    return Deg(da)
                 # a pure number added to a homogeneous term breaks homogeneity unless it is 0
                 if isinstance(a, Other) and da != ZERO and db not in (ZERO, {}):
                     return Deg(Top(f"constant added to a term of degree {fmt(db)}", lost=False))
@@ -359,6 +365,14 @@ class Evaluator:
         it = g.iter
         enum = isinstance(it, ast.Call) and is_name(it.func, "enumerate") and it.args
         src_list = self.ev(it.args[0] if enum else it, env)
+        if isinstance(it, ast.Call) and is_name(it.func, "zip") and len(it.args) >= 2 and not g.ifs:
+            zs = [self.ev(a, env) for a in it.args]
+            if all(isinstance(z, ListV) for z in zs):
+                env2 = dict(env)
+                self.bind_target(g.target, ("tuple", [Deg(z.elem()) for z in zs]), env2)
+                el = self.ev(e.elt, env2)
+                ln = zs[0].length if all(z.length == zs[0].length for z in zs) else ("?", 0)
+                return ListV(ln, degree_of(el), {}) if isinstance(el, (Deg, Other)) else Other()
         rng_len = None
         if isinstance(it, ast.Call) and is_name(it.func, "range") and len(it.args) == 1 and isinstance(it.args[0], ast.Call) and is_name(it.args[0].func, "len") and it.args[0].args and isinstance(it.args[0].args[0], ast.Name):
             base = env.get(it.args[0].args[0].id)
@@ -471,6 +485,10 @@ class Evaluator:
                 lc["mapped"].add(lname)
                 env[lname] = ListV(l.length, d, l.over, l.extra)
                 return
+        if isinstance(slice_node, ast.UnaryOp) and isinstance(slice_node.op, ast.USub) and isinstance(slice_node.operand, ast.Constant) and slice_node.operand.value == 1 and l.extra:
+            # L[-1] = v right after an append: the last element is replaced
+            env[lname] = ListV(l.length, l.default, l.over, l.extra[:-1] + [d])
+            return
         if key is None or l.length[0] == "?" or l.extra:
             env[lname] = ListV(l.length, unify(l.elem(), d, "stored element") if (l.default is not None or l.over) else d, {})
             return
@@ -610,8 +628,13 @@ class Evaluator:
             return ListV(args[0].order, {}, {}) if name == "shape" else Other(count=args[0].order)
         if name == "len" and args and isinstance(args[0], ListV) and args[0].length[0] != "?":
             return Other(count=args[0].length)
+        if name == "eps":
+            return Other(1e-16)  # machine epsilon: a negligible guard value
         if name in DEG0_PRIMS:
             return Other() if name in ("shape", "ndim", "context", "len", "range", "int", "float", "arange") else Deg({})
+        if name in SAME_PRIMS and not args and isinstance(c.func, ast.Attribute) and not (isinstance(c.func.value, ast.Name) and c.func.value.id in ("tl", "T", "np", "tensorly")):
+            a0 = self.ev(c.func.value, env)  # x.mean(), x.sum(), x.copy(): a method of the array
+            return Deg(degree_of(a0)) if isinstance(a0, (Deg, ListV)) else a0
         if name in SAME_PRIMS:
             a0 = args[0] if args else Other()
             return Deg(degree_of(a0)) if isinstance(a0, (Deg, ListV)) else a0
@@ -685,6 +708,12 @@ class Evaluator:
             v = env.get(t.left.id)
             if isinstance(v, Other) and isinstance(v.const, str):
                 return (v.const == t.comparators[0].value) == isinstance(t.ops[0], ast.Eq)
+        if isinstance(t, ast.Call) and call_name(t) == "is_tensor" and len(t.args) == 1 and isinstance(t.args[0], ast.Name) and t.args[0].id in env:
+            v = env[t.args[0].id]
+            if isinstance(v, Deg):
+                return True
+            if isinstance(v, ListV) or (isinstance(v, tuple) and v[0] in ("tuple", "obj")) or (isinstance(v, Other) and v.is_none):
+                return False
         if isinstance(t, ast.Call) and is_name(t.func, "isinstance") and len(t.args) == 2 and isinstance(t.args[0], ast.Name) and t.args[0].id in env:
             v = env[t.args[0].id]
             types = {n.id for n in ast.walk(t.args[1]) if isinstance(n, ast.Name)} | {n.attr for n in ast.walk(t.args[1]) if isinstance(n, ast.Attribute)}
@@ -847,6 +876,12 @@ class Evaluator:
             lst = Other()
         else:
             lst = self.ev(it.args[0] if enum else it, env)
+        zipped = None
+        if isinstance(it, ast.Call) and is_name(it.func, "zip") and len(it.args) >= 2:
+            zs = [self.ev(a, env) for a in it.args]
+            if all(isinstance(z, ListV) for z in zs):
+                zipped = zs
+                lst = zs[0] if all(z.length == zs[0].length for z in zs) else ListV(("?", 0), zs[0].elem(), {})
         length = lst.length if isinstance(lst, ListV) else (counted if counted is not None else ("?", 0))
         iter_name = pos_of or (it.args[0].id if enum and isinstance(it.args[0], ast.Name) else (it.id if isinstance(it, ast.Name) else None))
         if pos_of is not None or counted is not None:
@@ -904,10 +939,14 @@ class Evaluator:
         gen_elem = Other()
         if isinstance(lst, ListV):
             gen_elem = Deg(lst.default if lst.default is not None else lst.elem())
+        if zipped is not None:
+            gen_elem = ("tuple", [Deg(z.elem()) for z in zipped])
         # positions evaluated one by one: those with an exactly known element, and the first one
         # when the body tests for it
         peel = []
-        if isinstance(lst, ListV) and length[0] != "?" and idx is not None or (isinstance(lst, ListV) and length[0] != "?" and first):
+        if zipped is not None:
+            pass
+        elif isinstance(lst, ListV) and length[0] != "?" and idx is not None or (isinstance(lst, ListV) and length[0] != "?" and first):
             peel = sorted(k for k in lst.over if isinstance(k, int))
             if first and 0 not in peel:
                 peel = [0] + peel
@@ -1118,3 +1157,49 @@ def run_homogeneity(ctx: Ctx, rule="HOMOGENEITY", only_modules=None):
             if not ok:
                 ctx.finding(rule, f, node, f"`{f.name}` [{cfg}] returns a value that is {fmt(got)} but the defining contraction is {fmt(exp)} (homogeneity degrees: weights/core/factor symbols to the power shown, N = number of factors): a factor or the weights enter the product the wrong number of times", construct=f"{src(node)[:80]} [{cfg}] degree {fmt(got)} != {fmt(exp)}")
     return n
+
+
+def run_units(ctx: Ctx, rule: str, specs, legend: str, why: str):
+    """specs: (qualified name, entry environment, expected unit of every returned array, label).
+    Reports (a) the innermost expressions that combine different units, (b) returns whose unit
+    is not the expected one.  A unit that cannot be computed is an AnalysisError."""
+    repo, res = ctx.repo, ctx.res
+    for qname, entry, expected, label in specs:
+        f = repo.func(qname)
+        missing = [p for p in entry if p not in f.all_params]
+        if missing:
+            raise AnalysisError(f"{rule}: {qname} no longer has parameter(s) {missing}")
+        env = {}
+        for p in f.all_params:
+            if p in entry:
+                env[p] = entry[p]
+            elif p in f.defaults and isinstance(f.defaults[p], ast.Constant):
+                env[p] = Other(f.defaults[p].value, f.defaults[p].value is None)
+            else:
+                env[p] = Other()
+        ev = Evaluator(ctx, f, {})
+        ev.run(env)
+        cfg = f"{f.name} [{label}]" if label else f.name
+        rets = []
+        for node, v, _ in ev.returns:
+            parts = v[1] if isinstance(v, tuple) and v[0] == "tuple" else [v]
+            for i, pv in enumerate(parts):
+                if isinstance(pv, Deg):
+                    rets.append((node, i, pv.v))
+        if not rets:
+            raise AnalysisError(f"{rule}: no return of {qname} could be evaluated ({label})")
+        seen = set()
+        for node, msg in ev.problems:
+            if id(node) in seen:
+                continue
+            seen.add(id(node))
+            ctx.finding(rule, f, node, f"`{cfg}`: `{src(node)[:90]}` combines quantities of different units ({msg}; {legend}): {why}", construct=f"{f.name}: {src(node)[:80]} mixes units")
+        for node, i, got in rets:
+            ok = got == expected
+            res.instance(rule, f"{cfg}: {src(node)[:50]} #{i}", sample={"configuration": label, "unit": fmt(got), "expected": fmt(expected), "mixed_unit_expressions": len(seen), "ok": ok})
+            if isinstance(got, Top) and got.lost:
+                raise AnalysisError(f"{rule}: the unit of `{src(node)[:60]}` in {cfg} could not be computed ({got.why}); cannot decide")
+            if not ok and not isinstance(got, Top):
+                ctx.finding(rule, f, node, f"`{cfg}` returns a value of unit {fmt(got)}; it must have unit {fmt(expected)} ({legend}): {why}", construct=f"{cfg}: returned unit {fmt(got)} != {fmt(expected)}")
+            elif isinstance(got, Top) and not seen:
+                ctx.finding(rule, f, node, f"`{cfg}` returns a value without a single unit ({got.why})", construct=f"{cfg}: returned unit inhomogeneous")
